@@ -7,7 +7,7 @@ NS = 10 ** 9
 MIN = 60 * NS
 HOUR = 3600 * NS
 DAY = 86400 * NS
-EPOCH_STR = '2020-01-06 00:00:00'       # a Monday
+EPOCH_STR = '2020-02-24 00:00:00'       # a Monday; the 40-60 day window after it contains the US (8 Mar) and EU (29 Mar) DST changes
 
 
 def epoch():
@@ -15,9 +15,10 @@ def epoch():
     return pd.Timestamp(EPOCH_STR, tz='UTC')
 
 
-def to_timestamp(ns):
+def to_timestamp(ns, tz=None):
     import pandas as pd
-    return epoch() + pd.Timedelta(int(ns), unit='ns')
+    t = epoch() + pd.Timedelta(int(ns), unit='ns')
+    return t.tz_convert(tz) if tz not in (None, 'UTC') else t
 
 
 def from_timestamp(ts):
@@ -45,33 +46,105 @@ class SymTime:
     __hash__ = None
 
 
+def _zone(tz):
+    """normalise a tz argument to a pytz zone (or None for naive)"""
+    import pytz
+    if tz is None:
+        return None
+    if isinstance(tz, str):
+        return pytz.timezone(tz)
+    return tz
+
+
+def _is_utc(zone):
+    return zone is not None and getattr(zone, 'zone', str(zone)) in ('UTC', 'utc')
+
+
+_OFFSETS = {}
+
+
+def zone_offset(zone, t):
+    """UTC offset (ns) of `zone` at the UTC instant t, as a piecewise-constant z3 term over the window after EPOCH
+    (the zone's real transition table from pytz; outside the window the last segment is extended)"""
+    import datetime as _d, pytz
+    if zone is None or _is_utc(zone):
+        return z3.IntVal(0)
+    key = getattr(zone, 'zone', str(zone))
+    if key not in _OFFSETS:
+        e0 = _d.datetime.strptime(EPOCH_STR, '%Y-%m-%d %H:%M:%S')
+        e1 = e0 + _d.timedelta(days=90)
+        trans = [tt for tt in getattr(zone, '_utc_transition_times', []) if e0 < tt < e1]
+
+        def off_at(naive_utc):
+            return int(pytz.utc.localize(naive_utc).astimezone(zone).utcoffset().total_seconds()) * NS
+        segs = []
+        cur = e0
+        for tt in trans:
+            segs.append((int((tt - e0).total_seconds()) * NS, off_at(cur + (tt - cur) / 2)))
+            cur = tt
+        _OFFSETS[key] = (segs, off_at(cur + _d.timedelta(days=1)))
+    segs, last = _OFFSETS[key]
+    term = z3.IntVal(last)
+    for bound, off in reversed(segs):
+        term = z3.If(t < bound, z3.IntVal(off), term)
+    return term
+
+
 class SymTimestamp:
-    """Offers what the code under test uses on a pd.Timestamp: ordering, weekday(), time(),
-    strftime (placeholder)."""
+    """Offers what the code under test uses on a pd.Timestamp: ordering, weekday(), time(), date(), strftime
+    (placeholder), tzinfo / tz_convert / tz_localize.  `t` is the UTC instant in ns since EPOCH for an aware value
+    (tz = a pytz zone, default UTC) and the wall-clock reading for a naive one (tz = None)."""
 
-    def __init__(s, t):
+    def __init__(s, t, tz='UTC'):
         s.t = t if z3.is_expr(t) else z3.IntVal(int(t))
+        s.tz = _zone(tz)
 
-    @staticmethod
-    def _o(o):
-        if isinstance(o, SymTimestamp):
-            return o.t
-        raise TypeError(type(o))
+    @property
+    def tzinfo(s):
+        return s.tz
+
+    @property
+    def tz_(s):
+        return s.tz
+
+    def _wall(s):
+        """local wall-clock reading in ns"""
+        if s.tz is None or _is_utc(s.tz):
+            return s.t
+        return s.t + zone_offset(s.tz, s.t)
+
+    def tz_convert(s, tz):
+        if s.tz is None:
+            raise TypeError('Cannot convert tz-naive Timestamp, use tz_localize to localize')
+        if tz is None:
+            return SymTimestamp(s.t, tz=None)              # naive UTC wall clock
+        return SymTimestamp(s.t, tz=tz)
+
+    def tz_localize(s, tz):
+        if tz is None:
+            return SymTimestamp(s._wall(), tz=None)         # drops the zone, keeps the local wall clock
+        if s.tz is not None:
+            raise TypeError('Cannot localize tz-aware Timestamp, use tz_convert for conversions')
+        z = _zone(tz)
+        # wall -> instant (exact away from the transition hour itself)
+        return SymTimestamp(s.t - zone_offset(z, s.t), tz=z)
 
     def weekday(s):
-        return Sym(z3.ToReal((s.t / DAY) % 7), True)
+        return Sym(z3.ToReal((s._wall() / DAY) % 7), True)
 
     def time(s):
-        return SymTime(s.t % DAY)
+        return SymTime(s._wall() % DAY)
 
     def date(s):
-        return SymDate(s.t / DAY)
+        return SymDate(s._wall() / DAY)
 
     def strftime(s, fmt):
         return '<ts>'
 
     def _cmp(s, o, f, dflt):
         if isinstance(o, SymTimestamp):
+            if (s.tz is None) != (o.tz is None):
+                raise TypeError('Cannot compare tz-naive and tz-aware timestamps')
             return SymBool(f(s.t, o.t))
         if o is None:
             return dflt
